@@ -57,6 +57,10 @@ CLAIMED = {
             "Seeded exploration of interleavings: the real Ohkami::howl runs with 0..6 clients in tape-chosen stages (connecting, mid-request, in a handler sleeping up to 20 s, idle keep-alive, half-sent request); a simulated SIGINT becomes due at a tape-chosen instant and the REAL closure ohkami gave to ctrlc::set_handler runs on a second OS thread in strict hand-off with the executor, pausing at the three scheduling points hook K2 adds inside it, while the executor decides at the three points inside UntilInterrupt::poll (first poll and later polls) how far the handler advances — every order of the six steps is reachable. Safety: howl completes only after every spawned session task finished, accepted connections are served, late connects are refused. Bounded liveness: a quiescent world with the handler finished and howl still pending is a violation (lost wake-up).",
             "All atomics of the protocol are SeqCst, so the six explicit scheduling points give every observable interleaving; trusts the hand-off thread (exactly one of the two threads is ever runnable) and the executor's spinner rule for the busy-waiting WaitGroup.",
             "interleaving search over signal-handler steps vs accept-loop steps; safety ordering + quiescence liveness"),
+    "C19": ("DESIGN.md 5.C19",
+            "Seeded exploration with the file system as the faulted resource: each run builds a generated directory tree on the real file system (nesting, names colliding after extension stripping, dotted directory names, all 16 supported extensions, empty/binary/UTF-8 contents, index.html at any level, files next to the directory), mounts it through Route::Dir with a generated omit-extension setting and mount route in the real server, and sends 4..20 requests (every file and directory, HEAD, `..`/`.`/percent-encoded/doubled-slash traversal variants, stripped/added extensions, outside names, names added later) while the tree is mutated after start-up (overwrite, truncate, delete, rename, add, replace by directory); a directory -> route-table model with the start-up bytes decides every answer.",
+            "Trusts the directory model (DESIGN.md A.6) and the independent response parser; configurations the model rejects must panic at start-up and are discarded; no symlinks.",
+            "directory reference model vs served bytes under post-start-up file-system mutation faults"),
 }
 
 NOT_YET = "check not built yet in this round (work in progress; see DESIGN.md section 11 build order)"
